@@ -332,3 +332,26 @@ def reported_failed(stderr_text, arg):
     import re
     pat = r"cannot trash (?:'\.\.?' )?(?:[a-z]+ ){1,3}'" + re.escape(arg) + r"'"
     return re.search(pat, stderr_text) is not None
+
+
+def candidate_skeleton(env, uid, mounts):
+    """directories trash-put may create on the way to any candidate trash
+    directory (the candidates, their files/ and info/, and all ancestors)"""
+    from model import bag as MB
+    cands = []
+    h = MB.home_trash(env)
+    if h and h.startswith('/'):
+        cands.append(h)
+    for m in mounts:
+        pre = m if m != '/' else ''
+        cands.append(pre + '/.Trash/%d' % uid)
+        cands.append(pre + '/.Trash-%d' % uid)
+    out = set()
+    for c in cands:
+        out.add(c + '/files')
+        out.add(c + '/info')
+        p = c
+        while p and p != '/':
+            out.add(p)
+            p = posixpath.dirname(p)
+    return out
